@@ -68,6 +68,22 @@ template <typename V> long long view_id(const V& v) {
     return (long long)U::id_type::value;
 }
 
+// what a functor call returned: an evaluated value, a pack of operands (tuple), or a still partially applied functor / composition
+template <typename T, typename = void> struct has_arity : std::false_type {};
+template <typename T> struct has_arity<T, std::void_t<decltype(T::arity)>> : std::true_type {};
+template <typename R> const char* result_kind(const R&) {
+    using U = meta::remove_cvref_t<R>;
+    if constexpr (meta::is_maybe_v<U>) {
+        using V = meta::get_maybe_type_t<U>;
+        if constexpr (has_arity<V>::value && !meta::is_ndarray_v<V>) return "maybe-functor";
+        else if constexpr (meta::is_tuple_v<V>) return "maybe-tuple";
+        else return "value";
+    } else if constexpr (meta::is_ndarray_v<U> || meta::is_num_v<U>) return "value";
+    else if constexpr (has_arity<U>::value) return "functor";
+    else if constexpr (meta::is_tuple_v<U>) return "tuple";
+    else return "value";
+}
+
 template <typename F> long long arity_of(const F&) {
     if constexpr (meta::is_maybe_v<F>) return (long long)meta::get_maybe_type_t<F>::arity; else return (long long)F::arity;
 }
